@@ -364,6 +364,20 @@ def family(tier):
         extra += [("fractional-logic | max 2*%s+3x-y" % ll, [(bop("Add", x, y), "LessOrEqual", 2.0, "")], bop("Sub", bop("Add", bop("Mul", num(2), le), bop("Mul", num(3), x)), y), "Max", BO, BO),
                   ("fractional-logic | min 3*%s-x-y" % ll, [(bop("Add", x, y), "GreaterOrEqual", 0.0, "")], bop("Sub", bop("Sub", bop("Mul", num(3), le), x), y), "Min", BO, BO),
                   ("fractional-logic | %s>=1" % ll, [(le, "GreaterOrEqual", 1.0, "")], bop("Add", x, y), "Min", BO, BO)]
+    # three operands of which pruning removes one that is written before the others (what is computed per retained operand
+    # must stay aligned with the retained operands), and an abs whose operand contains another abs (auxiliaries are numbered
+    # while the operand is lowered)
+    rx, ry = ("Real", 5.0, 10.0), ("Real", 0.0, 10.0)
+    extra += [("pruned-first | max(x,4,y)>=7", [(mx(x, num(4), y), "GreaterOrEqual", 7.0, "")], bop("Add", x, y), "Min", rx, ry),
+              ("pruned-first | max max(1,x,y) ; x+y<=12", [(bop("Add", x, y), "LessOrEqual", 12.0, "")], mx(num(1), x, y), "Max", rx, ("Real", 0.0, 8.0)),
+              ("pruned-first | min(x,6,y)<=3", [(mn(x, num(6), y), "LessOrEqual", 3.0, "")], bop("Add", x, y), "Max", ("Real", 0.0, 5.0), ry),
+              ("pruned-first | min min(20,x,y) ; x+y>=8", [(bop("Add", x, y), "GreaterOrEqual", 8.0, "")], mn(num(20), x, y), "Min", ("Real", 0.0, 5.0), ("Real", 2.0, 10.0)),
+              ("pruned-first | max(x-20,y,x)=6", [(mx(bop("Sub", x, num(20)), y, x), "Equal", 6.0, "")], y, "Max", rx, ry),
+              ("nested-abs | max abs(abs(x)-3)", [(bop("Add", x, y), "LessOrEqual", 6.0, "")], ab(bop("Sub", ab(x), num(3))), "Max", ("IntegerRange", -4, 5), box),
+              ("nested-abs | abs(x-abs(y))<=1", [(ab(bop("Sub", x, ab(y))), "LessOrEqual", 1.0, "")], bop("Add", x, y), "Max", box, box),
+              ("nested-abs | min abs(x)-abs(abs(y)-1)", [(bop("Add", x, y), "GreaterOrEqual", -6.0, "")], bop("Sub", ab(x), ab(bop("Sub", ab(y), num(1)))), "Min", box, box),
+              ("nested-abs | abs(abs(x)-2)>=4", [(ab(bop("Sub", ab(x), num(2))), "GreaterOrEqual", 4.0, "")], x, "Min", box, box),
+              ("nested-abs | max(abs(x),abs(abs(y)-1))>=3", [(mx(ab(x), ab(bop("Sub", ab(y), num(1)))), "GreaterOrEqual", 3.0, "")], bop("Add", x, y), "Min", box, box)]
     for label, cons_, obj_, opt_, dx_, dy_ in extra:
         out.append((label, cons_, obj_, opt_, dx_, dy_, label.split("| ")[1]))
     return out
@@ -473,13 +487,14 @@ def check(F, R, tier, prop):
     res, n = results_for(F, tier)
     R.fn(LIN)
     R.count("COMPILE-EQUIV.models", n)
-    mine = {"C01": ("C01", "eval", "refused"), "C02": ("C02",), "C08": ("C08",), "C10": ("C10",)}[prop]
+    mine = {"C01": ("C01", "eval", "refused"), "C02": ("C02",), "C08": ("C08",), "C10": ("C10",), "C03": ("refused",)}[prop]
     bad = {}
     for label, group, kind, why in res:
         if kind in mine:
             bad.setdefault((kind, group), (label, why))
     text_ = {"C01": "every grid point is source-feasible iff the linear model is satisfiable there", "C02": "the best linear objective over the auxiliaries equals the source objective at every feasible grid point",
-             "C08": "every compiled linear model is well formed", "C10": "equivalent spellings compile to the same domains and feasible set"}[prop]
+             "C08": "every compiled linear model is well formed", "C10": "equivalent spellings compile to the same domains and feasible set",
+             "C03": "no well-formed model over bounded domains is refused by the compile step (a contradictory model is still a model)"}[prop]
     if not bad:
         R.ob("COMPILE-EQUIV", prop.lower() + ":all", True, "packages/rooc/src/transformers/linearizer.rs", "%s (%d models)" % (text_, n))
     for (kind, group), (label, why) in sorted(bad.items())[:20]:
